@@ -83,9 +83,13 @@ fn post_acquire_body(inside_region: bool) {
     let mo = view_of(&ex, &m);
     let oo = view_of(&ex, &other);
     kani::assume(region_token_waiter(&old, 0) == inside_region);
-    let ret = crate::rt::scheduler::verif_kani::with_ctx(&mut ex, || m.post_acquire());
+    // entry point: try_acquire_lock = announce the operation (branch_opaque -> schedule) + post_acquire;
+    // the blocking acquire_lock runs the same post_acquire after its branch_acquire
+    let ret = crate::rt::scheduler::verif_kani::with_ctx(&mut ex, || m.try_acquire_lock(Location::disabled()));
     let new = set_view(&ex.threads);
     let mn = view_of(&ex, &m);
+    oblige!("C01.enable.try_lock_announces_operation_then_schedules_once",
+        crate::rt::execution::verif_kani::schedule_calls() == 1 && crate::rt::execution::verif_kani::schedule_saw().unwrap().th[a].op == Some((0, 0)));
     oblige!("C07.mutex.post_acquire.succeeds_iff_unlocked", ret == mo.owner.is_none());
     oblige!("C07.mutex.post_acquire.other_mutex_untouched", mutex_view_eq(&oo, &view_of(&ex, &other)));
     oblige!("C07.mutex.post_acquire.set_shape_unchanged", new.len == old.len && new.active == old.active && vv_eq(&new.seq_cst, &old.seq_cst));
@@ -93,7 +97,8 @@ fn post_acquire_body(inside_region: bool) {
         oblige!("C07.mutex.post_acquire.failure_changes_nothing", mutex_view_eq(&mo, &mn));
         let mut i = 0;
         while i < N {
-            oblige!("C07.mutex.post_acquire.failure_changes_no_thread", th_view_eq(&old.th[i], &new.th[i]));
+            let (o, n) = (old.th[i], new.th[i]);
+            oblige!("C07.mutex.post_acquire.failure_changes_no_thread", if i == a { n.op == Some((0, 0)) && n.st == o.st && vv_eq(&n.causality, &o.causality) } else { th_view_eq(&o, &n) });
             i += 1;
         }
     } else {
@@ -103,7 +108,8 @@ fn post_acquire_body(inside_region: bool) {
             let (o, n) = (old.th[i], new.th[i]);
             if i == a {
                 oblige!("C07.mutex.post_acquire.acquires_exactly_the_release_view",
-                    is_join(&n.causality, &o.causality, &mo.sync) && th_view_eq_except_causality(&o, &n));
+                    is_join(&n.causality, &o.causality, &mo.sync) && n.st == o.st && n.op == Some((0, 0))
+                    && vv_eq(&n.released, &o.released) && vv_eq(&n.dpor_vv, &o.dpor_vv));
             } else if o.op.map(|x| x.0) == Some(0) {
                 oblige!("C07.mutex.post_acquire.blocks_other_contenders", n.st == StView::Blocked && th_view_eq_except_state(&o, &n));
                 // C08: a stored park token is never dropped by a lock operation
@@ -118,18 +124,22 @@ fn post_acquire_body(inside_region: bool) {
 }
 
 crate::with_fire_forbidden! {
-//@ props=C07,C05,C08 tier=quick fns=src/rt/mutex.rs::Mutex::post_acquire bounded=threads:N=3 models=VersionVec::join=s_vv_models_agree
+//@ props=C07,C05,C08 tier=quick fns=src/rt/mutex.rs::Mutex::try_acquire_lock,src/rt/mutex.rs::Mutex::post_acquire,src/rt/object.rs::Ref::branch_opaque bounded=threads:N=3 models=VersionVec::join=s_vv_models_agree,Execution::schedule=probe,Scheduler::switch=counting
 #[kani::proof]
 #[kani::unwind(7)]
+#[kani::stub(crate::rt::execution::Execution::schedule, crate::rt::execution::Execution::schedule_probe_model)]
+#[kani::stub(crate::rt::scheduler::Scheduler::switch, crate::rt::scheduler::verif_kani::switch_counting_model)]
 fn c07_mutex_post_acquire__outside() {
     post_acquire_body(false);
 }
 }
 
 crate::with_fire_forbidden! {
-//@ props=C08 tier=quick fns=src/rt/mutex.rs::Mutex::post_acquire bounded=threads:N=3 finding=F1a expect=C08.token_kept.mutex_post_acquire
+//@ props=C08 tier=quick fns=src/rt/mutex.rs::Mutex::try_acquire_lock,src/rt/mutex.rs::Mutex::post_acquire bounded=threads:N=3 finding=F1a expect=C08.token_kept.mutex_post_acquire
 #[kani::proof]
 #[kani::unwind(7)]
+#[kani::stub(crate::rt::execution::Execution::schedule, crate::rt::execution::Execution::schedule_probe_model)]
+#[kani::stub(crate::rt::scheduler::Scheduler::switch, crate::rt::scheduler::verif_kani::switch_counting_model)]
 fn c07_mutex_post_acquire__inside() {
     post_acquire_body(true);
 }
@@ -213,6 +223,8 @@ crate::with_fire_forbidden! {
 //@ props=C07,C04 tier=quick fns=src/rt/mutex.rs::Mutex::release_lock,src/rt/mutex.rs::Mutex::post_acquire bounded=threads:N=2
 #[kani::proof]
 #[kani::unwind(7)]
+#[kani::stub(crate::rt::execution::Execution::schedule, crate::rt::execution::Execution::schedule_probe_model)]
+#[kani::stub(crate::rt::scheduler::Scheduler::switch, crate::rt::scheduler::verif_kani::switch_counting_model)]
 fn c07_mutex_handover_orders_critical_sections() {
     let (mut ex, m, _other) = mutex_exec(2);
     let old = set_view(&ex.threads);
@@ -223,7 +235,7 @@ fn c07_mutex_handover_orders_critical_sections() {
     crate::rt::scheduler::verif_kani::with_ctx(&mut ex, || m.release_lock());
     // context switch to T2 (assumed contract of Scheduler::switch: T2 active)
     set_active_raw(&mut ex.threads, Some(t2));
-    let ok = crate::rt::scheduler::verif_kani::with_ctx(&mut ex, || m.post_acquire());
+    let ok = crate::rt::scheduler::verif_kani::with_ctx(&mut ex, || m.try_acquire_lock(Location::disabled()));
     let new = set_view(&ex.threads);
     let n2 = new.th[t2];
     oblige!("C07.mutex.handover.next_acquire_succeeds", ok && view_of(&ex, &m).owner == Some(t2));
@@ -259,4 +271,45 @@ pub(crate) fn mutex_state_with_access(pid: usize) -> State {
 pub(crate) fn last_access_of(ex: &crate::rt::Execution, idx: usize) -> Option<(usize, VersionVec)> {
     let r: object::Ref<State> = crate::rt::object::verif_kani::mk_ref(idx);
     r.get(crate::rt::execution::verif_kani::objects(ex)).last_access.as_ref().map(|a| crate::rt::access::verif_kani::access_parts(a))
+}
+
+crate::with_fire_forbidden! {
+//@ props=C07,C05 tier=quick fns=src/rt/mutex.rs::Mutex::acquire_lock,src/rt/object.rs::Ref::branch_acquire bounded=threads:N=3 models=Execution::schedule=probe,Scheduler::switch=counting,VersionVec::join=s_vv_models_agree
+#[kani::proof]
+#[kani::unwind(7)]
+#[kani::stub(crate::rt::execution::Execution::schedule, crate::rt::execution::Execution::schedule_probe_model)]
+#[kani::stub(crate::rt::scheduler::Scheduler::switch, crate::rt::scheduler::verif_kani::switch_counting_model)]
+fn c07_mutex_acquire_lock_when_free() {
+    let (mut ex, m, _other) = mutex_exec(3);
+    let old = set_view(&ex.threads);
+    let a = old.active.unwrap();
+    let oa = old.th[a];
+    let mo = view_of(&ex, &m);
+    kani::assume(mo.owner.is_none() && matches!(oa.st, StView::Runnable { .. }));
+    crate::rt::scheduler::verif_kani::with_ctx(&mut ex, || m.acquire_lock(Location::disabled()));
+    let na = set_view(&ex.threads).th[a];
+    let saw = crate::rt::execution::verif_kani::schedule_saw().unwrap().th[a];
+    oblige!("C07.mutex.acquire.free_lock_is_taken_without_blocking", view_of(&ex, &m).owner == Some(a)
+        && matches!(saw.st, StView::Runnable { .. }) && saw.op == Some((0, 0)) && crate::rt::execution::verif_kani::schedule_calls() == 1);
+    oblige!("C07.mutex.acquire.acquires_exactly_the_release_view", is_join(&na.causality, &oa.causality, &mo.sync));
+    reach!("c07_mutex_acquire_free");
+}
+}
+
+crate::with_fire_forbidden! {
+//@ props=C07,C05 tier=quick fns=src/rt/mutex.rs::Mutex::acquire_lock,src/rt/mutex.rs::Mutex::is_locked,src/rt/object.rs::Ref::branch_acquire bounded=threads:N=3 models=Execution::schedule=probe_blocked,Scheduler::switch=yield_state
+#[kani::proof]
+#[kani::unwind(7)]
+#[kani::stub(crate::rt::execution::Execution::schedule, crate::rt::execution::Execution::schedule_probe_blocked_model)]
+#[kani::stub(crate::rt::scheduler::Scheduler::switch, crate::rt::scheduler::verif_kani::switch_yield_state_model)]
+fn c07_mutex_acquire_lock_blocks_while_held() {
+    // a blocking acquire of a held lock yields Blocked on this mutex (obliged in the switch model) and
+    // never returns from this phase
+    let (mut ex, m, _other) = mutex_exec(3);
+    let a = active_index(&ex.threads).unwrap();
+    kani::assume(view_of(&ex, &m).owner.is_some());
+    kani::assume(matches!(thread_at(&ex.threads, a).state, crate::rt::thread::State::Runnable { .. }));
+    crate::rt::scheduler::verif_kani::with_ctx(&mut ex, || m.acquire_lock(Location::disabled()));
+    oblige!("C07.mutex.acquire.never_returns_while_lock_is_held", false);
+}
 }
